@@ -35,6 +35,8 @@ type c13Graph struct {
 	Reverse bool     `json:"reverse"`
 	Limit   int      `json:"limit"` // 0 = unbounded
 	Roots   []int    `json:"roots,omitempty"`
+	// ExtCancel: the caller's own context may be cancelled at any scheduling point (environment step "X")
+	ExtCancel bool `json:"extcancel,omitempty"`
 }
 
 func c13Name(i int) string { return "v" + strconv.Itoa(i) }
@@ -96,8 +98,9 @@ func c13GID() int64 {
 type c13GInfo struct {
 	gid     int64
 	state   string
-	kind    string // park | spawn | select | wait | send | "" (not blocked)
+	kind    string // park | spawn | select | wait | send | cwait | "" (not blocked)
 	blocked bool
+	waiting bool // raw runtime state: not running / runnable / syscall
 }
 
 // A goroutine counts as blocked only in one of the four places where the traversal can really wait.
@@ -107,6 +110,9 @@ func c13BlockKind(state string, blk []byte) string {
 	case "chan receive":
 		if bytes.Contains(blk, []byte("c13Sched).arrive")) {
 			return "park"
+		}
+		if bytes.Contains(blk, []byte("compose-go/v2/graph.walk")) {
+			return "cwait" // the coordinator after ctx.Done(), waiting for the caller to leave the extremities loop
 		}
 	case "chan send":
 		if bytes.Contains(blk, []byte("errgroup.(*Group).Go(")) {
@@ -129,10 +135,18 @@ func c13BlockKind(state string, blk []byte) string {
 
 // c13Dump lists the goroutines that belong to the traversal under test.
 func c13Dump(buf *[]byte) []c13GInfo {
+	l, _ := c13DumpU(buf)
+	return l
+}
+
+// c13DumpU also says whether the dump contains a goroutine whose stack the runtime could not print
+// (then nothing can be concluded from the absence of a traversal goroutine).
+func c13DumpU(buf *[]byte) ([]c13GInfo, bool) {
 	for {
 		n := runtime.Stack(*buf, true)
 		if n < len(*buf) {
-			return c13ParseDump((*buf)[:n])
+			b := (*buf)[:n]
+			return c13ParseDump(b), bytes.Contains(b, []byte("stack unavailable"))
 		}
 		*buf = make([]byte, 2*len(*buf))
 	}
@@ -171,6 +185,10 @@ func c13ParseDump(b []byte) []c13GInfo {
 		}
 		gi.kind = c13BlockKind(gi.state, blk)
 		gi.blocked = gi.kind != ""
+		// waiting for another goroutine (not for time, I/O or the runtime): only such a goroutine can be wedged
+		gi.waiting = gi.state == "chan send" || gi.state == "chan receive" || gi.state == "select" ||
+			gi.state == "semacquire" || gi.state == "sync.WaitGroup.Wait" || gi.state == "sync.Mutex.Lock" ||
+			gi.state == "sync.RWMutex.Lock" || gi.state == "sync.RWMutex.RLock" || gi.state == "sync.Cond.Wait"
 		res = append(res, gi)
 	}
 	return res
@@ -219,6 +237,7 @@ type c13Sched struct {
 	errSeen      bool
 	limit        int
 	errAt        map[int]bool
+	ctx          context.Context
 }
 
 var c13ErrVisitor = errors.New("visitor error")
@@ -278,7 +297,7 @@ func (s *c13Sched) visitor(_ context.Context, name string, _ types.ServiceConfig
 
 //go:noinline
 func c13CallWalk(s *c13Sched, g c13Graph) {
-	err := graph.InDependencyOrder(context.Background(), g.project(), s.visitor, g.options()...)
+	err := graph.InDependencyOrder(s.ctx, g.project(), s.visitor, g.options()...)
 	s.mu.Lock()
 	s.mDone = true
 	s.mRet = err
@@ -292,6 +311,7 @@ type c13Run struct {
 	Done     bool     `json:"done"`
 	Deadlock bool     `json:"deadlock,omitempty"`
 	Stuck    string   `json:"stuck,omitempty"`
+	Starved  string   `json:"starved,omitempty"` // could not be judged (machine overloaded): skipped, counted
 	Leftover int      `json:"leftover,omitempty"` // traversal goroutines still alive when walk returned
 	MaxRun   int      `json:"maxrun"`
 	OverBy   int      `json:"overby,omitempty"`
@@ -300,6 +320,7 @@ type c13Run struct {
 	Choices  []string `json:"-"`
 	Enabled  [][]string `json:"-"`
 	Steps    int      `json:"steps"`
+	ExtFired bool     `json:"extfired,omitempty"` // the caller's context was cancelled during the run
 	Debug    string   `json:"debug,omitempty"`
 }
 
@@ -331,6 +352,14 @@ func c13RunOne(g c13Graph, errAt map[int]bool, choose c13Chooser, maxSteps int) 
 	c13Mu.Lock()
 	defer c13Mu.Unlock()
 	s := &c13Sched{parked: map[int64]*c13Park{}, limit: g.Limit, errAt: errAt}
+	ctx, cancel := context.WithCancel(context.Background())
+	defer cancel()
+	s.ctx = ctx
+	var xG *c13G // pseudo goroutine: the owner of the caller's context
+	if g.ExtCancel {
+		xG = &c13G{gid: -7, role: "X", cur: &c13Park{gid: -7, step: "extCancel", key: -1}}
+	}
+	xFired := false
 	graph.VerifYield = s.yield
 	defer func() { graph.VerifYield = nil }()
 	run := &c13Run{}
@@ -365,6 +394,9 @@ func c13RunOne(g c13Graph, errAt map[int]bool, choose c13Chooser, maxSteps int) 
 		if run.Deadlock || run.Stuck != "" {
 			wait = 100 * time.Millisecond // already known to be wedged
 		}
+		if run.Starved != "" {
+			wait = 20 * time.Second
+		}
 		dl := time.Now().Add(wait)
 		var left []c13GInfo
 		for time.Now().Before(dl) {
@@ -378,7 +410,7 @@ func c13RunOne(g c13Graph, errAt map[int]bool, choose c13Chooser, maxSteps int) 
 			c13Leaked[gi.gid] = true
 		}
 		c13LeakMu.Unlock()
-		if run.Stuck == "" && !run.Deadlock {
+		if run.Stuck == "" && !run.Deadlock && run.Starved == "" {
 			run.Stuck = "cleanup: traversal goroutines never finished"
 		}
 	}
@@ -389,6 +421,7 @@ func c13RunOne(g c13Graph, errAt map[int]bool, choose c13Chooser, maxSteps int) 
 		var mDone bool
 		deadline := time.Now().Add(10 * time.Second) // generous: the machine may be heavily loaded; a real wedge is rare
 		spins := 0
+		deadConfirm := 0
 		// cheap wait first: the released goroutine normally reaches its next yield within microseconds
 		for i := 0; i < 300; i++ {
 			s.mu.Lock()
@@ -407,9 +440,14 @@ func c13RunOne(g c13Graph, errAt map[int]bool, choose c13Chooser, maxSteps int) 
 			}
 			mDone = s.mDone
 			s.mu.Unlock()
-			dump = c13Dump(&buf)
-			quiet := true
+			var uncertain bool
+			dump, uncertain = c13DumpU(&buf)
+			quiet := !uncertain
+			mSeen := false
 			for _, gi := range dump {
+				if gi.gid == s.mGid {
+					mSeen = true
+				}
 				if _, ok := reg[gi.gid]; ok {
 					continue
 				}
@@ -417,6 +455,24 @@ func c13RunOne(g c13Graph, errAt map[int]bool, choose c13Chooser, maxSteps int) 
 					quiet = false
 					break
 				}
+			}
+			// the caller goroutine exists from the start: until it has set mDone it must be visible (parked, blocked or
+			// running); it is invisible for a moment before it enters c13CallWalk and after it has left it
+			if quiet && !mSeen && !mDone {
+				quiet = false
+			}
+			// "nobody can move" is only believed when seen three times in a row
+			if quiet && !mDone && len(reg) == 0 {
+				s.mu.Lock()
+				nreg := len(s.parked)
+				s.mu.Unlock()
+				if nreg == 0 && deadConfirm < 3 {
+					deadConfirm++
+					quiet = false
+					time.Sleep(300 * time.Microsecond)
+				}
+			} else if quiet {
+				deadConfirm = 0
 			}
 			if quiet {
 				// the M goroutine leaves the dump only after it has set mDone; re-read to be sure
@@ -436,10 +492,22 @@ func c13RunOne(g c13Graph, errAt map[int]bool, choose c13Chooser, maxSteps int) 
 			}
 			if time.Now().After(deadline) {
 				var st []string
+				starved := true
 				for _, gi := range dump {
 					if _, ok := reg[gi.gid]; !ok && !gi.blocked {
 						st = append(st, fmt.Sprintf("g%d[%s]", gi.gid, gi.state))
+						if gi.state != "running" && gi.state != "runnable" {
+							starved = false // waiting for something the scheduler does not know: a real wedge
+						}
 					}
+				}
+				if starved {
+					// every goroutine that kept the traversal from settling was runnable for 10 s: the machine is
+					// overloaded (or the code spins; the free-running oracle decides that): cannot be judged
+					run.Starved = "no quiescence: " + strings.Join(st, ",")
+					run.Deadlock = false
+					finish()
+					return c13Finalize(s, run)
 				}
 				run.Stuck = "no quiescence: " + strings.Join(st, ",")
 				finish()
@@ -486,6 +554,10 @@ func c13RunOne(g c13Graph, errAt map[int]bool, choose c13Chooser, maxSteps int) 
 				// empty project: walk returned at once
 				evs = append(evs, evt{m, &c13Park{step: "M.wait", key: -1}, -1})
 			}
+		}
+		if xFired {
+			xFired = false
+			evs = append(evs, evt{xG, &c13Park{step: "extCancel", key: -1}, -1})
 		}
 		if released != nil {
 			gr := released
@@ -577,6 +649,9 @@ func c13RunOne(g c13Graph, errAt map[int]bool, choose c13Chooser, maxSteps int) 
 				parked = append(parked, gr)
 			}
 		}
+		if xG != nil && xG.cur != nil {
+			parked = append(parked, xG)
+		}
 		sort.Slice(parked, func(i, j int) bool { return c13RoleLess(parked[i].role, parked[j].role) })
 		if len(parked) == 0 {
 			run.Deadlock = true
@@ -611,6 +686,17 @@ func c13RunOne(g c13Graph, errAt map[int]bool, choose c13Chooser, maxSteps int) 
 		run.Steps++
 		p := gr.cur
 		gr.last, gr.cur = p, nil
+		if gr == xG {
+			// the owner of the context cancels it: synchronous, nothing of the traversal runs inside
+			s.mu.Lock()
+			lastSeq = s.seq
+			s.mu.Unlock()
+			cancel()
+			xFired = true
+			run.ExtFired = true
+			released = nil
+			continue
+		}
 		var err error
 		if p.step == "visit" && errAt[p.key] {
 			err = c13VisitErr{p.key}
@@ -712,9 +798,16 @@ func c13View(gs map[int64]*c13G, alive map[int64]c13GInfo) string {
 		case "spawn":
 			out = append(out, gr.role+":spawn:"+c13KeyStr(p.key)+flag)
 		case "C.select":
-			out = append(out, gr.role+":select"+flag)
-		case "C.recv", "C.ctxDone", "C.exit":
-			out = append(out, gr.role+":select+")
+			out = append(out, gr.role+":select"+flag+"?")
+		case "C.ctxDone":
+			// parked: about to wait for `spawned`; blocked: the caller is still in its loop (model: m ≠ none)
+			if flag == "-" {
+				out = append(out, gr.role+":select+-")
+			} else {
+				out = append(out, gr.role+":select+?")
+			}
+		case "C.recv", "C.exit":
+			out = append(out, gr.role+":select+?")
 		case "M.wait":
 			out = append(out, gr.role+":wait"+flag)
 		case "W.begin":
@@ -817,5 +910,52 @@ func c13ChooseCompletion(internal c13Chooser, visits func(held []*c13G) *c13G) c
 			}
 		}
 		return 0
+	}
+}
+
+// c13Await waits for an uncontrolled call of the real code (result on done).  It returns early when the traversal is
+// certainly wedged: the same non-empty set of traversal goroutines, every one of them waiting, in four dumps 50 ms
+// apart (no goroutine of the traversal ever waits for time or I/O, so nothing can wake them).  Otherwise it gives the
+// call `max` (generous: the machine may be heavily loaded).
+func c13Await(done <-chan error, max time.Duration) (err error, returned bool, why string) {
+	deadline := time.After(max)
+	buf := make([]byte, 1<<16)
+	same, last := 0, ""
+	tick := time.NewTimer(200 * time.Millisecond)
+	defer tick.Stop()
+	for {
+		select {
+		case err = <-done:
+			return err, true, ""
+		case <-deadline:
+			return nil, false, fmt.Sprintf("did not return within %s", max)
+		case <-tick.C:
+			dump, uncertain := c13DumpU(&buf)
+			var sig []string
+			all := len(dump) > 0 && !uncertain
+			for _, gi := range dump {
+				if !gi.waiting {
+					all = false
+				}
+				sig = append(sig, fmt.Sprintf("g%d[%s]", gi.gid, gi.state))
+			}
+			cur := strings.Join(sig, ",")
+			if all && cur == last {
+				same++
+			} else {
+				same = 0
+			}
+			last = cur
+			if all && same >= 3 {
+				// the goroutines stay behind: later controlled runs must ignore them
+				c13LeakMu.Lock()
+				for _, gi := range dump {
+					c13Leaked[gi.gid] = true
+				}
+				c13LeakMu.Unlock()
+				return nil, false, "deadlock: every goroutine of the traversal is blocked: " + cur
+			}
+			tick.Reset(50 * time.Millisecond)
+		}
 	}
 }
